@@ -18,7 +18,7 @@ pub fn spec() -> Spec {
         replay,
         nshards: |_| 16,
         case_cap_s: |t| t.pick(300, 3600),
-        rule: "one case per (presentation, index bound k); every k' <= k is run separately. Families: named finite and infinite groups (free, free abelian, surface, triangle, Coxeter); 'exhaustive' = every presentation with <= R relators among the rotation/inversion classes of cyclically reduced words of length <= L on 2 and 3 generators, including the empty presentation and length-1 relators; 'dsym' = crate presentations of the fundamental groups of all DSyms outputs over DSets(2, <= N). Oracle: number of tables per row count = (1/n!) * sum over transitive homomorphisms G -> S_n of |Aut| (validated against the published counts for F2, Z^2, Z^3); each table complete, <= k rows, transitive, mutually inverse columns, every relator closes at every row; tables pairwise inequivalent as actions (minimum BFS renumbering over all base points). Non-trivial = the group has a proper subgroup of index <= k.",
+        rule: "one case per (presentation, index bound k); every k' <= k is run separately. Families: named finite and infinite groups (free, free abelian, surface, triangle, Coxeter); 'exhaustive' = every presentation with <= R relators among the rotation/inversion classes of cyclically reduced words of length <= L on 2 and 3 generators, including the empty presentation and length-1 relators; 'written-forms' = EVERY cyclically reduced word of length <= 5 [6] (2 generators) / 3 [4] (3 generators), not one per rotation class, as the single relator and next to a second relator of length <= 2; 'dsym' = crate presentations of the fundamental groups of all DSyms outputs over DSets(2, <= N). Oracle: number of tables per row count = (1/n!) * sum over transitive homomorphisms G -> S_n of |Aut| (validated against the published counts for F2, Z^2, Z^3); each table complete, <= k rows, transitive, mutually inverse columns, every relator closes at every row; tables pairwise inequivalent as actions (minimum BFS renumbering over all base points). Non-trivial = the group has a proper subgroup of index <= k.",
         assumptions: &["family 'dsym' takes presentations from fundamental_group as a supply of inputs only"],
         bounds: |t| json!({"k_for_2_generators": t.pick(5, 6), "k_for_3_generators": t.pick(4, 5), "k_for_4_generators": t.pick(3, 4), "k_for_1_generator": 8,
             "exhaustive_2gens": {"relator_len": t.pick(4, 5), "max_relators": 3, "k": t.pick(5, 6)}, "exhaustive_3gens": {"relator_len": 3, "max_relators": t.pick(3, 4), "k": t.pick(4, 5)},
@@ -218,6 +218,52 @@ fn run(ctx: &mut Ctx) {
             if ctx.take() {
                 let k = if ng == 2 { tier.pick(5, 6) } else { tier.pick(4, 5) };
                 check_case(ctx, "exhaustive", ng, &p, k);
+            }
+        }
+    }
+    // written forms: the group does not depend on how a relator is written.  Every cyclically reduced word of
+    // length <= L (not only one representative per rotation/inversion class) as the single relator, and as the
+    // first relator next to a second one from the class list
+    {
+        let (l2, l3) = (tier.pick(5, 6), tier.pick(3, 4));
+        for (ng, maxlen, k) in [(2usize, l2, tier.pick(5, 6)), (3, l3, tier.pick(4, 5))] {
+            let mut letters = vec![];
+            for g in 1..=ng as isize {
+                letters.push(g);
+                letters.push(-g);
+            }
+            let mut frontier: Vec<Word> = vec![vec![]];
+            let mut all: Vec<Word> = vec![];
+            for _ in 0..maxlen {
+                let mut next = vec![];
+                for w in &frontier {
+                    for &l in &letters {
+                        if w.last().map_or(true, |&x| x != -l) {
+                            let mut v = w.clone();
+                            v.push(l);
+                            next.push(v);
+                        }
+                    }
+                }
+                for w in &next {
+                    if w.len() == 1 || w[0] != -w[w.len() - 1] {
+                        all.push(w.clone());
+                    }
+                }
+                frontier = next;
+            }
+            let seconds = cyc_reduced_words(ng, 2);
+            for w in &all {
+                if ctx.take() {
+                    check_case(ctx, "written-forms", ng, &vec![w.clone()], k);
+                }
+                if w.len() >= 3 && w.len() <= maxlen - 1 {
+                    for s2 in &seconds {
+                        if ctx.take() {
+                            check_case(ctx, "written-forms", ng, &vec![w.clone(), s2.clone()], k.min(5));
+                        }
+                    }
+                }
             }
         }
     }
